@@ -32,12 +32,12 @@ def describe(tier):
                 "own evaluation is fulfilled (a single entry is always offered; an invalid entry is selectable), compared as an ORDERED "
                 "list; accepted <=> offered (status *_AND_FILLED, flag True); a non-empty value that is not offered is flagged (flag False) "
                 "and reported *_AND_EMPTY; nothing offered => exactly IS_FORBIDDEN whatever was entered; forbidden segment => IS_FORBIDDEN "
-                "(direct call) / element not reported (through the segment). E3 family: a segment with two 3-entry pools and a free-text element, SUSPENDING "
+                "(direct call) / element not reported (through the segment). Pools that list a qualifier TWICE (5 qualifier patterns x all expression tuples from a 4-entry menu): offered once iff one of its lines is fulfilled. E3 family: a segment with two 3-entry pools and a free-text element, SUSPENDING "
                 "evaluators, all completion orders (quick: <= 2 deviations) on the virtual event loop: every schedule's result list equals the zero-yield run and the "
                 "run with non-suspending evaluators. Non-trivial = pools with >= 2 entries.",
         "bounds": b,
         "exhaustive": True,
-        "assumptions": ["qualifiers are pairwise distinct"],
+        "assumptions": ["a qualifier listed twice is offered (once) if any of its lines is fulfilled; the meaning reported for it is not judged then"],
     }
 
 
@@ -58,6 +58,8 @@ def _orders_model(item):
 def plan(tier, seed):
     b = BOUNDS[tier]
     items = []
+    for d in range(5):
+        items.append({"fam": "duplicates", "quals": d, "cer": 0})
     for pool in range(len(ORD_POOLS)):
         for inp in (None, QUALS[0], QUALS[1], "ZZ9"):
             items.append({"fam": "orders", "pool": pool, "input": inp, "order_bound": 2 if tier == "quick" else None})
@@ -81,7 +83,7 @@ def worker_init():
 _OWN = {}
 
 
-def check_case(exprs, inp, seg, cer, via, pv=0):
+def check_case(exprs, inp, seg, cer, via, pv=0, quals=None):
     """via = 'direct' (validate_data_element_valuepool) or 'segment' (validate_segment)"""
     V = H.init()
     I = H.I
@@ -91,11 +93,14 @@ def check_case(exprs, inp, seg, cer, via, pv=0):
     # the meaning of a qualifier is free text: '' for every second entry
     entries = [{"q": QUALS[i] if i < len(QUALS) else f"Q{i}", "expr": e.format(**rk),
                 "meaning": "" if (i + len(exprs)) % 2 else "Bedeutung " + (QUALS[i] if i < len(QUALS) else f"Q{i}")} for i, e in enumerate(exprs)]
+    if quals is not None:
+        # explicit qualifiers (a qualifier may be listed twice); the meaning is a function of the qualifier then
+        entries = [{"q": q, "expr": e.format(**rk), "meaning": "" if sum(map(ord, q)) % 2 else "Bedeutung " + q} for q, e in zip(quals, exprs)]
     meaning_of = {e["q"]: e["meaning"] for e in entries}
     pool = {"kind": "pool", "id": "DE", "input": inp, "entries": entries}
     seg_status, seg_expr = SEGMENTS[seg]
     seg_expr = seg_expr.format(**rk)
-    case = {"exprs": list(exprs), "input": inp, "segment": seg, "cer": cer, "via": via, "pv": pv}
+    case = {"exprs": list(exprs), "input": inp, "segment": seg, "cer": cer, "via": via, "pv": pv, "quals": quals}
     packages = {k: v.format(**rk) for k, v in PACKAGE_TABLES[pv].items()}
 
     def envf():
@@ -205,6 +210,22 @@ def run_item(item):
             r.violation(x["kind"], x["case"], x["expected"], x["observed"], x["msg"])
         r.sample({"orders": item, "schedules": exp.schedules})
         return r
+    if item.get("fam") == "duplicates":
+        quals = DUP_QUALS[item["quals"]]
+        for exprs in itertools.product(DUP_MENU, repeat=len(quals)):
+            for inp in (None, "A1", "B2", "ZZ9"):
+                for seg in (0, 1):
+                    for via in ("direct", "segment"):
+                        vs = check_case(list(exprs), inp, seg, item["cer"], via, 0, quals)
+                        r.evaluations += 1
+                        r.states += 1
+                        r.transitions += 1
+                        r.traces += 1
+                        r.nontrivial += 1
+                        for x in vs:
+                            r.violation(x["kind"], x["case"], x["expected"], x["observed"], x["msg"])
+        r.sample({"pool_qualifiers": quals})
+        return r
     size = item["size"]
     if item["first"] == "interleaved":
         menus = [["X [{f}]", "X", "X [{u}]", "X [{f}]", "X"], ["X [{u}]", "X [{f}]", "X [{u}]", "X [{f}]", "X [501]"],
@@ -248,6 +269,10 @@ def run_item(item):
     return r
 
 
+DUP_QUALS = [["A1", "A1"], ["A1", "B2", "A1"], ["A1", "A1", "B2"], ["B2", "A1", "A1"], ["A1", "A1", "A1"]]
+DUP_MENU = ["X [{f}]", "X [{u}]", "X", "X [{f}] O [501]"]
+
+
 def replay(case):
     if "orders" in case:
         import json
@@ -258,4 +283,4 @@ def replay(case):
         plain = json.dumps(list(H.V.run_validation(groups, H.env(0), True)), ensure_ascii=False, default=repr)
         out = base if case.get("zero_yield") else observe(vloop.run_schedule(factory_for(False), case["choices"]))
         return [{"kind": k, "case": case, "expected": e, "observed": o} for k, e, o in _orders_violations(base, out, plain)]
-    return check_case(case["exprs"], case["input"], case["segment"], case["cer"], case["via"], case.get("pv", 0))
+    return check_case(case["exprs"], case["input"], case["segment"], case["cer"], case["via"], case.get("pv", 0), case.get("quals"))
